@@ -198,7 +198,8 @@ func Harness_app_pipeline() {
 	// multiply with those of the others
 	hpCmds := []string{"register", "totals", "balance-single", "csv-log", "csv-resolved", "element-total", "quantity", "unresolved", "print",
 		"register-template", "register-left-aligned", "register-totals-only", "register-no-totals", "summary",
-		"quantity-desc", "element-total-desc"}
+		"quantity-desc", "element-total-desc",
+		"register-single-element", "register-group-by-food", "register-single-food"}
 	ci := verifBound("command", -1)
 	if ci < 0 {
 		ci = verifChoose("command", len(hpCmds))
@@ -253,6 +254,72 @@ func Harness_app_pipeline() {
 		hpCheck(cmd, out, regNames, regNums)
 		// every day is shown, also a day without entries, whatever the totals options
 		verifAssert(cmd+":one-heading-per-day", hpHeadings(out) == len(days))
+	}
+
+	// ---- register -s x: one row per day that contributes to x: positive part, minus the negative
+	// part, their sum - and the rows add up to the period total of x
+	if cmd != "register-single-element" {
+	} else if out, ok := run(cmd, "reg", "-s", hpX); ok {
+		var names []string
+		var nums []float64
+		perDay, _ := contribs()
+		for d := range days {
+			var xs []shared.HContrib
+			for _, c := range perDay[d] {
+				if c.Elem == hpX {
+					xs = append(xs, c)
+				}
+			}
+			for _, t := range shared.HTotals(xs) {
+				names = append(names, t.Name)
+				nums = append(nums, t.Pos, -1*t.Neg, t.Pos+t.Neg)
+			}
+		}
+		hpCheck(cmd, out, names, nums)
+	}
+
+	// ---- register -s x -g: per food (sorted by name), what it contributed to x over the period
+	if cmd != "register-group-by-food" {
+	} else if out, ok := run(cmd, "reg", "-s", hpX, "-g"); ok {
+		perDay, _ := contribs()
+		var names []string
+		var nums []float64
+		for _, food := range []string{hpR0, hpR1, hpU, hpX} { // sorted by name
+			sum, any := 0.0, false
+			for d := len(days) - 1; d >= 0; d-- {
+				for k := len(perDay[d]) - 1; k >= 0; k-- {
+					if c := perDay[d][k]; c.Food == food && c.Elem == hpX {
+						if any {
+							sum += c.Amt
+						} else {
+							sum, any = c.Amt, true
+						}
+					}
+				}
+			}
+			if any {
+				names = append(names, food)
+				nums = append(nums, sum)
+			}
+		}
+		hpCheck(cmd, out, names, nums)
+	}
+
+	// ---- register -f a/r1: the logged foods whose name matches, per day, merged, in order
+	if cmd != "register-single-food" {
+	} else if out, ok := run(cmd, "reg", "-f", "^a/r1"); ok {
+		var names []string
+		var nums []float64
+		for _, raw := range days {
+			for _, f := range shared.HDistinct(raw) {
+				if f.Name == hpR0 || f.Name == hpR1 {
+					names = append(names, f.Name)
+					nums = append(nums, f.Qty)
+				}
+			}
+		}
+		hpCheck(cmd, out, names, nums)
+		verifAssert(cmd+":one-heading-per-row", hpHeadings(out) == len(names))
 	}
 
 	// ---- summary DATE: the totals (positive register) and the foods of exactly that day
